@@ -6,6 +6,13 @@ import textwrap
 from core import CheckerError, parse_kind, KRef
 
 
+def clause(c):
+    """A clause is 'expr' or ('C04,C05', 'expr'): -> (expr, tags or None)."""
+    if isinstance(c, tuple):
+        return c[1], set(x.strip() for x in c[0].split(','))
+    return c, None
+
+
 class Contract:
     def __init__(self, qual, **kw):
         self.qual = qual
@@ -70,6 +77,7 @@ class Registry:
         self.ufuncs = {}
         self.ghostvars = {}
         self.folds = {}
+        self.axioms_text = []
         self.props = {}
 
     def kind(self, text):
@@ -122,6 +130,10 @@ class Registry:
         """Fold of `term` over the values of a dict kind: name(d, *params) = sum_{k in d} term(d[k], *params).
         The defining equations (empty, insert, overwrite, delete) are instantiated at every update."""
         self.folds[name] = {'over': over, 'term': term, 'params': list(params), 'ret': ret}
+
+    def axiom(self, name, text, note=''):
+        """A definitional axiom of a witness function (assumed in every verification; listed in evidence)."""
+        self.axioms_text.append((name, text, note))
 
     def ghostvar(self, name, kind):
         """Global symbolic constant (e.g. the content of an external store)."""
